@@ -32,7 +32,7 @@ ASSUMPTIONS = ['sources within 0.5 deg of CRVAL so that the pixel-space model an
 MIN_REACH = {'source_finder:SourceFinder.priorized_fit_islands': 1, 'source_finder:SourceFinder._refit_islands': 1}
 MIN_COUNTERS = {'runs_with_sources_narrower_than_the_psf': 2, 'runs_ratio1_with_catalogue_psf_differing_from_beam': 2, 'runs_with_repeated_labels_inside_an_island': 1,
                 'outputs_judged': 100, 'cutout_width_odd': 10, 'cutout_width_even': 10, 'interference_pairs': 3,
-                'runs_over_20_groups': 2, 'file_inputs': 3, 'runs_polar_field_regroup_on': 4, 'polar_blend_members': 20}
+                'runs_over_20_groups': 2, 'file_inputs': 3, 'runs_polar_field_regroup_on': 4, 'sources_with_a_blank_pixel_next_to_the_centre': 10, 'polar_blend_members': 20}
 BATCHES_PER_JOB = 4
 PRIORIZED = 64
 FWHM2CC = 1.0 / (2.0 * np.sqrt(2.0 * np.log(2.0)))
@@ -177,6 +177,15 @@ def cases(seed, tier):
         c['dup_labels'] = True
         c['regroup'] = False
         c['form'] = 'objects'
+        c['stage'] = 1 + i % 3
+        out.append(c)
+    # flagged pixels next to source centres
+    n_pin = 8 if tier == 'quick' else 80
+    for i in range(n_pin):
+        c = gen_case(rng, int(rng.integers(3, 16)), tier)
+        c['pinholes'] = True
+        c['form'] = 'objects' if i % 2 else 'csv'
+        c['psf_columns'] = True
         c['stage'] = 1 + i % 3
         out.append(c)
     # fields at |dec| 72-86 with many blends and regrouping ON: there an east-west separation in degrees of RA is several times
@@ -465,6 +474,24 @@ def run(case):
         if case['kind'] == 'interference':
             own += _interference(o, ctx, case, z, h, img, objs, truth, rms, sc, rng)
             return _finish(o, own)
+        if case.get('pinholes'):
+            # flagged pixels: a single blank pixel (sometimes two) right next to a source's central pixel, which itself stays valid -
+            # the source is still an accepted input and the noise-free model still determines it exactly
+            nh = 0
+            for t in tlist:
+                if rng.random() < 0.5:
+                    fi, fj = [float(v) for v in z.sky2index(t['ra'], t['dec'])]
+                    i_, j_ = int(round(fi)), int(round(fj))
+                    # (a centre on a pixel edge/corner has no unique central pixel: which of the two the finder takes is its own
+                    # business, so such sources get no pinhole)
+                    unique = abs(fi - np.floor(fi) - 0.5) > 0.1 and abs(fj - np.floor(fj) - 0.5) > 0.1
+                    if unique and 2 <= i_ < img.shape[0] - 2 and 2 <= j_ < img.shape[1] - 2:
+                        for _ in range(1 if rng.random() < 0.7 else 2):
+                            di, dj = [(-1, -1), (-1, 0), (-1, 1), (0, -1), (0, 1), (1, -1), (1, 0), (1, 1)][int(rng.integers(0, 8))]
+                            img[i_ + di, j_ + dj] = np.nan
+                        nh += 1
+            o.count('sources_with_a_blank_pixel_next_to_the_centre', nh)
+            o.count('runs_with_pinholes')
         fits.PrimaryHDU(img, header=h).writeto(fn_img, overwrite=True)
         _arm(o)
         try:
